@@ -188,7 +188,11 @@ def _generic_param2ast(param):
                         and _param["default"][0] + _param["default"][-1]
                         in frozenset(("()", "[]", "{}"))
                     )
-                    else ast.parse(_param["default"])
+                    else ast.parse(
+                        _param["default"]
+                        if isinstance(_param["default"], str)
+                        else repr(_param["default"])
+                    )
                 )
             except SyntaxError:
                 parsed_default = set_value(
